@@ -41,6 +41,24 @@ Theorem no_body_line_is_a_command : forall (lines cs : list (list N)) (p q : lis
 Proof. exact never_a_command. Qed.
 Print Assumptions no_body_line_is_a_command.
 
+(** Several messages over ONE connection (getMailFrom returning successive messages): the bytes of each
+    message are those a fresh client would send, whatever was sent before ([ls] = the line-start flag left
+    by earlier traffic), so every message of the session is received exactly, under every network
+    segmentation of each transfer. *)
+Theorem session_messages_independent : forall (msgs : list (list (list N))) (ls : bool),
+  session_wires ls msgs = map client_wire msgs.
+Proof. exact session_independent. Qed.
+Print Assumptions session_messages_independent.
+
+Theorem session_receives_exact_lines : forall (ms : list (list (list N) * list (list N))) (ls : bool),
+  Forall msg_ok ms ->
+  Forall2 (fun m w => forall ns, concat ns = w ->
+             snd (srun_chunks data_start ns) = map MsgLine (header_view (fst m)) ++ [Eom]
+             /\ in_data (fst (srun_chunks data_start ns)) = false)
+          ms (session_wires ls (map snd ms)).
+Proof. exact session_exact_lines. Qed.
+Print Assumptions session_receives_exact_lines.
+
 (** The client's bytes are the one-pass reference encoding of the body (LF -> CR LF, a "." at the start
     of a line doubled) followed by the terminator, however the file was read ... *)
 Theorem client_bytes_are_reference_encoding : forall cs : list (list N),
